@@ -500,6 +500,8 @@ def rename_table(r, prog, maxn=5):
                 continue
         else:
             old = "OLD%d_%s" % (i, r.choice(SUFFIX))
+            if r.random() < 0.12:
+                old = old.lower()  # rename files accept lower-case old names
         inv = tab[new]["type"] == BOOL and r.random() < 0.3
         lines.append("CONFIG_%s %sCONFIG_%s" % (old, "!" if inv else "", new))
         olds.append(old)
@@ -542,7 +544,13 @@ def handwritten(r, prog, olds=(), sane=True, maxn=8):
                 lines.append(assign_line(n, t, v))
         if r.random() < 0.1:
             lines.append("\n")
-    return "".join(lines)
+    text = "".join(lines)
+    k = r.random()
+    if k < 0.08:
+        text = text.replace("\n", "\r\n")  # edited on another platform
+    elif k < 0.16:
+        text = text.replace("\n", "  \n")  # trailing blanks
+    return text
 
 
 def strip_default_marked(text):
